@@ -1,4 +1,5 @@
 import IslaVerif.Proofs.Certify
+import IslaVerif.Properties.C10
 /-
 C01 — every solver solution is grammar-valid and satisfies the constraint.
 
@@ -29,6 +30,20 @@ theorem certify_iff_flags (w : World) (startSym const : String) (f : Fm) :
       (certFlags w startSym const f).valid = true ∧ (certFlags w startSym const f).closed = true ∧
       (certFlags w startSym const f).rootOk = true ∧ (certFlags w startSym const f).verdict = some true := by
   simp [certify, Bool.and_eq_true, and_assoc]
+
+/-- every certified solution is accepted by the verified recognizer: whenever the recognizer answers
+on the string of a certified tree, it answers `true` (solutions always re-parse) -/
+theorem certified_recognized (w : World) (startSym const : String) (f : Fm) (b : Bool)
+    (h : certify w startSym const f = true)
+    (h0 : Grammar.isNT w.g "" = false) (hA : Grammar.isNT w.g startSym = true)
+    (hr : Rec.recognize w.g startSym (w.root.yieldC w.g) = some b) : b = true :=
+  (C10.recognize_inLang h0 hA hr).2 (certify_sound w startSym const f h).2.2.2.1
+
+/-- a certified solution of `φ` is never a solution of `not φ` -/
+theorem certified_not_neg (w : World) (startSym const : String) (f : Fm)
+    (h : certify w startSym const f = true) : ¬ Sat w [(const, Bind.path [])] (.neg f) := by
+  simp only [Sat]
+  exact fun hn => hn (certify_sound w startSym const f h).2.2.2.2
 
 /-! non-vacuity: the certifier accepts a satisfying tree and rejects a violating / an open one -/
 def gEx : Grammar := [("<start>", [["<d>", "<d>"]]), ("<d>", [["0"], ["1"]])]
